@@ -87,6 +87,7 @@ def run(ctx):
     _overwrite_order(ctx)
     # R18.3
     ar.compat_checks_rule(ctx, 'R18.3')
+    ar.kind_checks_rule(ctx, 'R18.3')
     ar.index_normalisation_rule(ctx, 'R18.3b')
     from . import c01 as _c01, c08 as _c08
     _c01.r124(ctx, 'R18.6')
